@@ -8,7 +8,9 @@
 
    Full statement (false today, see Findings/C18.v):
      forall reader input, reader_ok (obs_of_outcome (reader_guard input)) = true
-   What holds: unconditionally for the SRT and SCC guards; for WebVTT and STL outside the executable triggers below. *)
+   What holds: unconditionally for the SRT and SCC guards; for WebVTT and STL outside the executable triggers below
+     (one for WebVTT, three for STL; the empty-file, cue-without-payload, bad-TCP and bad-MNR triggers went with
+     repository commits 7ed55ac, 05a353c, 9e84fe8, 41b1329). *)
 From TT Require Import Base.Prelude Model.Outcome Model.ReaderGuards Spec.RobustSpec.
 From TT Require Import Proofs.C18.SpecLink Proofs.C18.Srt Proofs.C18.Vtt Proofs.C18.Scc Proofs.C18.Stl.
 
@@ -41,11 +43,9 @@ Proof. intros. apply not_internal_ok. apply srt_cursor_partial; assumption. Qed.
 Print Assumptions C18_srt_cursor_partial.
 
 (* ---- 2. WebVTT ------------------------------------------------------------------------------------------------ *)
-(* triggers: the file is empty (vtt-empty-file); some line containing "-->" is followed by a blank line or the end
-   (vtt-cue-without-payload, over-approximated); a percentage setting overflows a float (vtt-percentage-overflow) *)
+(* on every text, the empty one included; the only trigger left is a percentage setting that overflows a float
+   (vtt-percentage-overflow) *)
 Theorem C18_vtt_partial : forall oracle content,
-  readlines content <> [] ->
-  arrow_without_payload (map vtt_classify (readlines content)) = false ->
   vtt_any_overflow (map vtt_classify (readlines content)) = false ->
   (forall r, In r oracle -> sub_is_internal r = false) ->
   reader_ok (obs_of_outcome (vtt_run oracle content)) = true.
@@ -53,18 +53,10 @@ Proof. intros. apply not_internal_ok. apply vtt_partial; assumption. Qed.
 Print Assumptions C18_vtt_partial.
 
 Theorem C18_vtt_internal_origin_partial : forall oracle items k,
-  items <> [] -> arrow_without_payload items = false -> vtt_any_overflow items = false ->
+  vtt_any_overflow items = false ->
   vtt_views oracle items = Internal k -> In (SubInternal k) oracle.
 Proof. exact vtt_views_partial. Qed.
 Print Assumptions C18_vtt_internal_origin_partial.
-
-(* variant model with `subtitle_text = ""` before the loop (the obvious repair): the payload trigger disappears.  If the repository
-   is repaired this way the correspondence selects this variant and the check keeps deciding the property *)
-Theorem C18_vtt_repaired_variant_partial : forall oracle items k,
-  items <> [] -> vtt_any_overflow items = false ->
-  vtt_views_fixed oracle items = Internal k -> In (SubInternal k) oracle.
-Proof. exact vtt_views_fixed_partial. Qed.
-Print Assumptions C18_vtt_repaired_variant_partial.
 
 (* _TextCueParser without ruby markup: no internal error unless an end tag closes nothing (vtt-stray-end-tag);
    with <ruby>/<rt> the unconditional statement is false (vtt-rt-outside-ruby, vtt-ruby-structure) and nothing is proved *)
@@ -90,10 +82,10 @@ Print Assumptions C18_scc_total.
 
 (* ---- 4. EBU STL ----------------------------------------------------------------------------------------------- *)
 (* over byte lists of any length and every reader configuration: struct.error for wrong sizes, otherwise no internal error
-   unless one of four executable triggers fires (stl-bad-tcp; stl-bad-mnr / stl-zero-row-count; stl-zero-block-count;
-   stl-cumulative-block-first) or tf.to_model (oracle) raises one *)
+   unless one of three executable triggers fires (stl-zero-row-count; stl-zero-block-count; stl-cumulative-block-first) or
+   tf.to_model (oracle) raises one *)
 Theorem C18_stl_partial : forall cfg oracle file,
-  trig_bad_tcp cfg (firstn 1024 file) = false -> trig_bad_mnr cfg (firstn 1024 file) = false ->
+  trig_zero_rows cfg (firstn 1024 file) = false ->
   trig_zero_count (firstn 1024 file) = false -> trig_cum_first cfg file = false ->
   (forall r, In r oracle -> sub_is_internal r = false) ->
   reader_ok (obs_of_outcome (stl_run cfg oracle file)) = true.
@@ -101,7 +93,7 @@ Proof. intros. apply not_internal_ok. apply stl_partial; assumption. Qed.
 Print Assumptions C18_stl_partial.
 
 Theorem C18_stl_internal_origin_partial : forall cfg oracle file k,
-  trig_bad_tcp cfg (firstn 1024 file) = false -> trig_bad_mnr cfg (firstn 1024 file) = false ->
+  trig_zero_rows cfg (firstn 1024 file) = false ->
   trig_zero_count (firstn 1024 file) = false -> trig_cum_first cfg file = false ->
   stl_run cfg oracle file = Internal k -> In (SubInternal k) oracle.
 Proof. exact stl_run_internal. Qed.
@@ -116,9 +108,9 @@ Print Assumptions C18_spec_iff_not_internal.
 (* "WEBVTT\n\nNOTE x\n\n1\n00:01.000 --> 00:02.000 size:50%\nhello\n\n" *)
 Example C18_vtt_partial_applies :
   let content := [87;69;66;86;84;84;10;10;78;79;84;69;32;120;10;10;49;10;48;48;58;48;49;46;48;48;48;32;45;45;62;32;48;48;58;48;50;46;48;48;48;32;115;105;122;101;58;53;48;37;10;104;101;108;108;111;10;10] in
-  readlines content <> [] /\ arrow_without_payload (map vtt_classify (readlines content)) = false
-  /\ vtt_any_overflow (map vtt_classify (readlines content)) = false /\ vtt_run [] content = OkDoc /\ vtt_calls [] content = [true].
-Proof. split; [vm_compute; discriminate|]. repeat split; vm_compute; reflexivity. Qed.
+  vtt_any_overflow (map vtt_classify (readlines content)) = false /\ vtt_run [] content = OkDoc /\ vtt_calls [] content = [true]
+  /\ vtt_run [] [] = OkDoc.
+Proof. repeat split; vm_compute; reflexivity. Qed.
 
 (* "1\n00:00:01,000 --> 00:00:02,000\nhello\n\n2\n" : one cue parsed, then the end of input in state TC; a file whose counter
    line is missing returns None *)
@@ -139,7 +131,7 @@ Example C18_stl_partial_applies :
   let gsi := repeat 32 3 ++ [83;84;76;50;53;46;48;49] ++ repeat 32 1013 in
   let block := [0; 1; 0; 255; 0; 0; 0; 5; 0; 0; 0; 6; 0; 20; 2; 0] ++ repeat 143 112 in
   let cfg := {| cfg_start := StartNone; cfg_rows := RowsNone |} in
-  trig_bad_tcp cfg (firstn 1024 (gsi ++ block)) = false /\ trig_bad_mnr cfg (firstn 1024 (gsi ++ block)) = false
+  trig_zero_rows cfg (firstn 1024 (gsi ++ block)) = false
   /\ trig_zero_count (firstn 1024 (gsi ++ block)) = false /\ trig_cum_first cfg (gsi ++ block) = false
   /\ stl_run cfg [] (gsi ++ block) = OkDoc /\ stl_run cfg [] (gsi ++ firstn 100 block) = FormatError StructErr.
 Proof. repeat split; vm_compute; reflexivity. Qed.
